@@ -348,6 +348,12 @@ def _absence_signal(model: Model, rep: Report) -> None:
     v13 = idx[0].value
     two_arg_get = isinstance(v13, ast.Call) and isinstance(v13.func, ast.Attribute) and v13.func.attr == "get" and len(v13.args) == 2 and isinstance(v13.args[0], ast.Constant) and v13.args[0].value == "Index"
     r13.check(bool(two_arg_get), site(xl, idx[0]), xl.qualname, "index = stream.get('Index', (0, size))", why=f"`{unparse(v13)[:80]}`: a default chosen by truth value (or by a later test) also replaces an empty /Index, so a revision that defines no objects is read as covering 0..Size-1 and shadows every older definition")
+    r14 = rep.rule("C02-R14", "ORDER", "every revision is read: read_xref_from either raises or loads the section at `start` and registers it - there is no way out before `xrefs.append(xref)` (no cap on the number of revisions, no silent return)", 1)
+    rx14 = model.func(DOC + ".read_xref_from")
+    g14 = build_cfg(rx14.node, exc_edges=False)
+    wit14 = g14.all_path_pass(g14.entry, lambda nd: nd.ast is not None and nd.kind == "stmt" and contains_call(nd.ast, lambda c: (dotted(c.func) or "") == "xrefs.append"))
+    rets14 = [n for n in walk_no_nested(rx14.node) if isinstance(n, ast.Return)]
+    r14.check(wit14 is None and not rets14, site(rx14, rets14[0]) if rets14 else site(rx14), rx14.qualname, "every non-raising path through read_xref_from passes xrefs.append(xref)", why="a path returns (or falls out) before the section is registered: the oldest revisions of a long update history - and with them the catalog and the pages of the original body - are silently dropped")
     r12 = rep.rule("C02-R12", "EXC", "classic table: a line that is neither a subsection header nor a three-field entry invalidates the table (PDFNoValidXRef, which engages the body scan) - it is not skipped", 2)
     ld = model.func(D + "PDFXRef.load")
     tests = [n for n in walk_no_nested(ld.node) if isinstance(n, ast.If) and isinstance(n.test, ast.Compare) and unparse(n.test.left).startswith("len(") and isinstance(n.test.ops[0], ast.NotEq)]
